@@ -530,6 +530,24 @@ def fullSlice : ViewItem := .slice Option.none Option.none Option.none
 def indicesView (ix : List (Option Nat)) : View :=
   .basic (mergeView (fun k => ViewItem.int k) fullSlice ix [])
 
+/-- Index tuple of the reduced dataset → index tuple of the parent (the fixed indices at their
+positions). -/
+def embed (ix : List (Option Nat)) (idx : List Nat) : List Nat := mergeView id 0 ix idx
+
+/-- The indices fit the parent shape. -/
+def ixValid : List Nat → List (Option Nat) → Bool
+  | [], [] => true
+  | _ :: hs, Option.none :: ix => ixValid hs ix
+  | h :: hs, some k :: ix => decide (k < h) && ixValid hs ix
+  | _, _ => false
+
+/-- `IndexedData._indices_subset_state`: `SliceSubsetState(parent, [slice(None) if i is None else i])`,
+the selection `compute_histogram` intersects the caller's selection with. -/
+def indicesSlices (ix : List (Option Nat)) : List ViewItem :=
+  ix.map fun o => match o with
+    | Option.none => fullSlice
+    | some k => ViewItem.int k
+
 /-- `IndexedData._to_original_view(view)` as repaired (`C04e`). -/
 def toOriginalView (psh : List Nat) (ix : List (Option Nat)) : View → Except ViewErr View
   | .none => .ok (.basic (mergeView (fun k => ViewItem.int k) fullSlice ix []))
